@@ -511,6 +511,7 @@ def run(ctx):
     # D11: constants of different widths never share a slot (the slot's size is what gets serialised) - shared with C04/C15
     import importlib as _il11
     _il11.import_module("rules.c15").const_slot_shared_by_size(db, rep, "D11-CONST-SLOT-BY-SIZE")
+    reader_constructors_name_blind(db, rep)
 
     if ctx.tier == "thorough":
         d5(ctx, rep)
@@ -627,3 +628,40 @@ def d10_var_table_writers(db, rep, rule="D10-VAR-TABLE-WRITERS"):
                       line=x.line)
     if n < 8:
         raise AnalysisBroken("only %d stores to OrcProgram.vars[].size found" % n)
+
+
+def reader_constructors_name_blind(db, rep, rule="D12-PLACEHOLDER-NAMES"):
+    """The bytecode does not carry variable names: orc_bytecode_parse_function re-creates every variable under a one-letter
+    placeholder ("d", "s", "a", "p", "t", "c"), so several variables of one kind get the SAME name.  Every constructor the
+    reader calls with a literal name must therefore create a slot whatever the name is: a constructor (or a helper it calls)
+    that compares the requested name with existing ones - to refuse a duplicate, or to share a slot - drops the second
+    accumulator / parameter / temporary of every program that comes back from bytecode.  (orc_program_add_constant_str, the one
+    constructor that shares by name, is not called by the reader.)"""
+    from callgraph import CallGraph
+    rd = db.func("orc_bytecode_parse_function", "orcbytecode")
+    tu = db.tu("orcprogram")
+    ctors = {}
+    for c in rd.calls():
+        if c.name and c.name.startswith("orc_program_add_") and any(strip_casts(a) is not None and strip_casts(a).k == "StringLiteral" for a in c.args()):
+            ctors[c.name] = c
+    if len(ctors) < 8:
+        raise AnalysisBroken("only %d constructors with placeholder names found in orc_bytecode_parse_function" % len(ctors))
+    for name in sorted(ctors):
+        todo, seen, bad = [name], set(), None
+        while todo:
+            g = tu.fn.get(todo.pop())
+            if g is None or g.body is None or g.name in seen:
+                continue
+            seen.add(g.name)
+            for c in g.calls():
+                if c.name in ("strcmp", "strncmp", "__builtin_strcmp", "orc_program_find_var_by_name") and bad is None:
+                    bad = (g, c)
+                if c.name and c.name.startswith("orc_program_add_"):
+                    todo.append(c.name)
+        rep.saw(tu.fn[name])
+        rep.check(bad is None, rule, where(tu.fn[name]), name, "the constructor creates a slot whatever the name is",
+                  "%s (called by the bytecode reader with the placeholder name %s for every variable of its kind) reaches `%s` in %s (line %s): the "
+                  "second variable re-created under the same placeholder is refused or merged, and the program that comes back from bytecode has lost "
+                  "it" % (name, unparse(next(a for a in ctors[name].args() if strip_casts(a).k == "StringLiteral")), bad[1].name if bad else "", bad[0].name if bad else "",
+                          bad[1].line if bad else "?"), line=bad[1].line if bad else None)
+    return len(ctors)
